@@ -14,8 +14,12 @@ T = Type[VisionsBaseType]
 def _traverse_graph_spark_dataframe(
     df: DataFrame, root_node: T, graph: nx.DiGraph
 ) -> Tuple[DataFrame, Dict[str, List[T]], Dict[str, dict]]:
+    # column names are quoted: an unquoted name containing a dot is parsed as a
+    # reference to a nested field
     inferred_values = {
-        col: traverse_graph_with_series(root_node, df.select(col), graph)
+        col: traverse_graph_with_series(
+            root_node, df.select("`" + col.replace("`", "``") + "`"), graph
+        )
         for col in df.columns
     }
 
